@@ -67,16 +67,18 @@ class ParseUserData:
         # raised by the parser itself while handling one section is that
         # section's failure and must not hide the module from later sections.
         try:
-            if userDataParserMod in userDataParsers:
-                cls = userDataParsers[userDataParserMod]
-            else:
-                cls = importlib.import_module(userDataParserMod)
-                userDataParsers[userDataParserMod] = cls
-        except ImportError:
-            userDataParsers[userDataParserMod] = None
-            cls = None
-            # No print for informational purposes, this is encountered often, e.g. PHYP
-        try:
+            # A module that is there but fails to load for another reason is
+            # this section's failure too (error note below), not the PEL's.
+            try:
+                if userDataParserMod in userDataParsers:
+                    cls = userDataParsers[userDataParserMod]
+                else:
+                    cls = importlib.import_module(userDataParserMod)
+                    userDataParsers[userDataParserMod] = cls
+            except ImportError:
+                userDataParsers[userDataParserMod] = None
+                cls = None
+                # No print for informational purposes, this is encountered often, e.g. PHYP
             if self.data:
                 mv = memoryview(self.data)
                 if cls is None:
